@@ -145,7 +145,11 @@ def outcome(fn: Callable[[], Any]) -> Outcome:
     try:
         return Outcome(("ok", fn()))
     except LiquidError as e:
-        return Outcome(("liquid", type(e).__name__, str(e)[:200], e))
+        try:
+            msg = str(e)[:200]
+        except Exception as e2:  # noqa: BLE001  formatting the error must not take the harness down
+            msg = f"<str(error) raised {type(e2).__name__}>"
+        return Outcome(("liquid", type(e).__name__, msg, e))
     except RecursionError as e:
         return Outcome(("other", "RecursionError", "", innermost_repo_frame(e)))
     except Exception as e:  # noqa: BLE001  classification is the point
